@@ -74,12 +74,40 @@ Proof.
   induction l as [|[k w] r IH]; cbn; [discriminate|]. destruct (str_eqb n k); [auto | exact IH].
 Qed.
 
+Lemma omap'_forall2 {A B} (f : A -> option B) xs ys :
+  Forall2 (fun x y => f x = Some y) xs ys -> omap' f xs = Some ys.
+Proof. induction 1 as [|x y xs ys H F IH]; cbn; [reflexivity|]. rewrite H, IH. reflexivity. Qed.
+
+Lemma omap'_forall2_inv {A B} (f : A -> option B) xs ys :
+  omap' f xs = Some ys -> Forall2 (fun x y => f x = Some y) xs ys.
+Proof.
+  revert ys. induction xs as [|x xs IH]; cbn; intros ys H.
+  - injection H as <-. constructor.
+  - destruct (f x) as [y|] eqn:E; [|discriminate]. destruct (omap' f xs) as [ys'|]; [|discriminate].
+    injection H as <-. constructor; [exact E | apply IH; reflexivity].
+Qed.
+
+
 Lemma decl_doms_app a b : decl_doms (a ++ b) = decl_doms a ++ decl_doms b.
 Proof. apply flat_map_app. Qed.
 Lemma decl_strands_app a b : decl_strands (a ++ b) = decl_strands a ++ decl_strands b.
 Proof. apply flat_map_app. Qed.
-Lemma decl_cplx_app a b : decl_cplx (a ++ b) = decl_cplx a ++ decl_cplx b.
-Proof. apply flat_map_app. Qed.
+Lemma dcf_app pre a b : decl_cplx_from pre (a ++ b) = decl_cplx_from pre a ++ decl_cplx_from (pre ++ a) b.
+Proof.
+  revert pre. induction a as [|s a IH]; intros pre; cbn [app decl_cplx_from]; [rewrite app_nil_r; reflexivity|].
+  rewrite IH, <- !app_assoc. reflexivity.
+Qed.
+Lemma decl_cplx_snoc prev s : decl_cplx (prev ++ [s]) = decl_cplx prev ++ cplx_entry prev s.
+Proof. unfold decl_cplx. rewrite dcf_app. cbn. rewrite app_nil_r. reflexivity. Qed.
+Lemma cplx_entry_names pre pre' s : map fst (cplx_entry pre s) = map fst (cplx_entry pre' s).
+Proof. destruct s; reflexivity. Qed.
+Lemma dcf_names pre pre' l : map fst (decl_cplx_from pre l) = map fst (decl_cplx_from pre' l).
+Proof.
+  revert pre pre'. induction l as [|s l IH]; intros pre pre'; cbn [decl_cplx_from]; [reflexivity|].
+  rewrite !map_app, (cplx_entry_names pre pre' s), (IH (pre ++ [s]) (pre' ++ [s])). reflexivity.
+Qed.
+Lemma decl_cplx_names_app a b : map fst (decl_cplx (a ++ b)) = map fst (decl_cplx a) ++ map fst (decl_cplx b).
+Proof. unfold decl_cplx. rewrite dcf_app, map_app. cbn [app]. rewrite (dcf_names a [] b). reflexivity. Qed.
 Lemma decl_macs_app a b : decl_macs (a ++ b) = decl_macs a ++ decl_macs b.
 Proof. apply flat_map_app. Qed.
 Lemma decl_rxns_app a b : decl_rxns (a ++ b) = decl_rxns a ++ decl_rxns b.
@@ -100,13 +128,6 @@ Proof.
   unfold decl_strands. rewrite in_flat_map. split.
   - intros [s [Hs Hx]]. destruct s; cbn in Hx; try tauto. destruct Hx as [E|[]]. injection E as <- <-. exact Hs.
   - intros H. eexists. split; [exact H|]. left. reflexivity.
-Qed.
-Lemma decl_cplx_in prev n names sst :
-  In (n, (names, sst)) (decl_cplx prev) <-> exists cc, In (SKer n names sst cc) prev.
-Proof.
-  unfold decl_cplx. rewrite in_flat_map. split.
-  - intros [s [Hs Hx]]. destruct s; cbn in Hx; try tauto. destruct Hx as [E|[]]. injection E as <- <- <-. eauto.
-  - intros [cc H]. eexists. split; [exact H|]. left. reflexivity.
 Qed.
 Lemma decl_macs_in prev n xs : In (n, xs) (decl_macs prev) <-> In (SMac n xs) prev.
 Proof.
@@ -153,6 +174,25 @@ Section Built.
                                (DRxn (map m_id sr) (map m_id sp) (ri_type ri))) /\
       ri_rate ri = Some k /\ attr_get i (r_rate r) = Some (k, ri_units ri).
 
+  (* a complex object with this sequence of names and this structure, filed under its name *)
+  Definition BuiltCplx (r : rstate) (acc : pilout) (n : pstr) (names : list pstr) (sst : list chr) (conc : option conc) : Prop :=
+    let h := heap (r_st r) in
+    exists i es cdict cn e, dlookup n (po_complexes acc) = Some i /\ nonempty n = true /\
+      Forall2 (ElemOf (po_domains acc)) names es /\
+      rot_dict names sst = Some cdict /\ canon_of cdict = Some (cn, e) /\
+      hget h i = Some (new_obj cc n (KCplx cn) (map (fun kv => KCplx (fst kv)) cdict) (elem_ids es)
+                               (DCplx es sst (wrap (- Z.of_nat e) (Z.of_nat (nstrands names))))) /\
+      attr_get i (r_conc r) = conc.
+
+  Definition strand_obj (n : pstr) (ds : list pstr) (ids : list nat) : obj :=
+    new_obj cs n (KCplx (ds, map (fun _ => Registry.cStar) ds)) [] ids (DStrand (combine ds (map Some ids))).
+
+  (* the named strands and their domain names *)
+  Definition StrandsOf (r : rstate) (acc : pilout) (ss : list pstr) (dss : list (list pstr)) : Prop :=
+    Forall2 (fun s ds => exists j ids, dlookup s (po_strands acc) = Some j /\ nonempty s = true /\
+                           Forall2 (fun d i => dlookup d (po_domains acc) = Some i) ds ids /\
+                           hget (heap (r_st r)) j = Some (strand_obj s ds ids)) ss dss.
+
   Definition Built (r : rstate) (acc : pilout) (s : stmt) : Prop :=
     let h := heap (r_st r) in
     match s with
@@ -166,24 +206,17 @@ Section Built.
           Iupac.reverse_wc_complement false sq = Ok sq' /\
           attr_get i (r_seq r) = Some sq /\ attr_get j (r_seq r) = Some sq'
     | SComp n ds =>
-        exists i ids, dlookup n (po_strands acc) = Some i /\
+        exists i ids, dlookup n (po_strands acc) = Some i /\ nonempty n = true /\ starred n = false /\
           Forall2 (fun d j => dlookup d (po_domains acc) = Some j) ds ids /\
-          hget h i = Some (new_obj cs n (KCplx (ds, map (fun _ => Registry.cStar) ds)) [] ids
-                                   (DStrand (combine ds (map Some ids))))
-    | SKer n names sst conc =>
-        exists i es cdict cn e, dlookup n (po_complexes acc) = Some i /\ nonempty n = true /\
-          Forall2 (ElemOf (po_domains acc)) names es /\
-          rot_dict names sst = Some cdict /\ canon_of cdict = Some (cn, e) /\
-          hget h i = Some (new_obj cc n (KCplx cn) (map (fun kv => KCplx (fst kv)) cdict) (elem_ids es)
-                                   (DCplx es sst (wrap (- Z.of_nat e) (Z.of_nat (nstrands names))))) /\
-          attr_get i (r_conc r) = conc
+          hget h i = Some (strand_obj n ds ids)
+    | SKer n names sst conc => exists names' sst', BuiltCplx r acc n names' sst' conc
     | SMac n xs =>
         exists i (mks : list (nat * ckey)) rep, dlookup n (po_macrostates acc) = Some i /\ nonempty n = true /\
           Forall2 (fun x mk => dlookup x (po_complexes acc) = Some (fst mk) /\ member_ckey h (fst mk) = Some (snd mk)) xs mks /\
           hget h i = Some (new_obj cm n (KMac (map snd (sort_by snd ckey_cmp mks))) [] (map fst mks)
                                    (DMac (map fst mks) rep))
     | SRxn ri => exists i, BuiltRxn r acc ri i
-    | SSC _ _ _ => False
+    | SSC n ss sst => exists names, BuiltCplx r acc n names (no_space sst) None
     | SOther => True
     end.
 
@@ -266,6 +299,25 @@ Section Built.
       rewrite (lt_rate _ _ _ _ L) by (eapply hget_lt; eauto). exact H6.
   Qed.
 
+  Lemma builtcplx_later r acc r' acc' n names sst conc :
+    Later r acc r' acc' -> BuiltCplx r acc n names sst conc -> BuiltCplx r' acc' n names sst conc.
+  Proof.
+    intros L. pose proof (later_hget _ _ _ _ L) as HG.
+    intros [i [es [cdict [cn [e [H1 [Hne [H2 [H3 [H4 [H5 H6]]]]]]]]]]]. exists i, es, cdict, cn, e.
+    split; [apply (lt_C _ _ _ _ L); exact H1|]. split; [exact Hne|].
+    split; [eapply Forall2_impl'; [|exact H2]; intros a b; apply elemof_later; apply (lt_D _ _ _ _ L)|].
+    split; [exact H3|]. split; [exact H4|]. split; [apply HG; exact H5|].
+    rewrite (lt_conc _ _ _ _ L) by (eapply hget_lt; eauto). exact H6.
+  Qed.
+
+  Lemma strandsof_later r acc r' acc' ss dss : Later r acc r' acc' -> StrandsOf r acc ss dss -> StrandsOf r' acc' ss dss.
+  Proof.
+    intros L F. pose proof (later_hget _ _ _ _ L) as HG. eapply Forall2_impl'; [|exact F]. cbn.
+    intros s ds [j [ids [H1 [H2 [H3 H4]]]]]. exists j, ids. split; [apply (lt_S _ _ _ _ L); exact H1|].
+    split; [exact H2|]. split; [|apply HG; exact H4].
+    eapply Forall2_impl'; [|exact H3]. cbn. intros a b. apply (lt_D _ _ _ _ L).
+  Qed.
+
   Theorem built_later r acc r' acc' s : Later r acc r' acc' -> Built r acc s -> Built r' acc' s.
   Proof.
     intros L. pose proof (later_hget _ _ _ _ L) as HG. destruct s as [x l|x sq chk|n ds|n ss sst|n names sst conc|n xs|ri|]; cbn [Built].
@@ -277,14 +329,10 @@ Section Built.
       split; [apply (lt_D _ _ _ _ L); exact H1|]. split; [apply (lt_D _ _ _ _ L); exact H2|].
       split; [apply HG; exact H3|]. split; [apply HG; exact H4|]. split; [exact H5|].
       rewrite (lt_seq _ _ _ _ L) by (eapply hget_lt; eauto). rewrite (lt_seq _ _ _ _ L) by (eapply hget_lt; eauto). auto.
-    - intros [i [ids [H1 [H2 H3]]]]. exists i, ids. split; [apply (lt_S _ _ _ _ L); exact H1|].
+    - intros [i [ids [H1 [Hne [Hst [H2 H3]]]]]]. exists i, ids. split; [apply (lt_S _ _ _ _ L); exact H1|]. split; [exact Hne|]. split; [exact Hst|].
       split; [|apply HG; exact H3]. eapply Forall2_impl'; [|exact H2]. cbn. intros a b. apply (lt_D _ _ _ _ L).
-    - tauto.
-    - intros [i [es [cdict [cn [e [H1 [Hne [H2 [H3 [H4 [H5 H6]]]]]]]]]]]. exists i, es, cdict, cn, e.
-      split; [apply (lt_C _ _ _ _ L); exact H1|]. split; [exact Hne|].
-      split; [eapply Forall2_impl'; [|exact H2]; intros a b; apply elemof_later; apply (lt_D _ _ _ _ L)|].
-      split; [exact H3|]. split; [exact H4|]. split; [apply HG; exact H5|].
-      rewrite (lt_conc _ _ _ _ L) by (eapply hget_lt; eauto). exact H6.
+    - intros [names H]. exists names. eapply builtcplx_later; eauto.
+    - intros [names' [sst' H]]. exists names', sst'. eapply builtcplx_later; eauto.
     - intros [i [mks [rep [H1 [Hne [H2 H3]]]]]]. exists i, mks, rep. split; [apply (lt_M _ _ _ _ L); exact H1|].
       split; [exact Hne|].
       split; [|apply HG; exact H3]. eapply Forall2_impl'; [|exact H2]. cbn. intros a b [A1 A2].
@@ -328,9 +376,12 @@ Section Built.
              forall n, nlookup n (cs_names (cget (r_st r) (cls_of k))) = dlookup n (dict_of k acc);
     si_rR : forall n j, nlookup n (cs_names (cget (r_st r) cr)) = Some j -> In j (po_det acc ++ po_con acc);
     si_keys : forall k n, In n (map fst (dict_of k acc)) -> In n (declared k prev);
-    si_decl : forall x l, In (x, l) (decl_doms prev) -> starred x = false /\ nonempty x = true /\ (0 <= l)%Z;
+    si_decl : forall x l, In (x, l) (decl_doms prev) ->
+              starred x = false /\ nonempty x = true /\ (0 <= l)%Z /\ str_eqb x sPlus = false;
     si_kR : forall j, In j (po_det acc ++ po_con acc) ->
-            exists ri, In (SRxn ri) prev /\ BuiltRxn r acc ri j
+            exists ri, In (SRxn ri) prev /\ BuiltRxn r acc ri j;
+    (* every declared complex is built with the sequence and structure its statement denotes *)
+    si_cplx : forall n names sst, In (n, (names, sst)) (decl_cplx prev) -> exists conc, BuiltCplx r acc n names sst conc
   }.
 
   Definition SInv (prev : list stmt) (r : rstate) (acc : pilout) : Prop :=
@@ -359,8 +410,8 @@ End Built.
 Lemma declared_app k a b n : In n (declared k (a ++ b)) <-> In n (declared k a) \/ In n (declared k b).
 Proof.
   destruct k; cbn [declared].
-  - rewrite decl_doms_app, flat_map_app, in_app_iff. tauto.
-  - rewrite decl_cplx_app, map_app, in_app_iff. tauto.
+  - unfold dom_names. rewrite decl_doms_app, flat_map_app, in_app_iff. tauto.
+  - rewrite decl_cplx_names_app, in_app_iff. tauto.
   - rewrite decl_strands_app, map_app, in_app_iff. tauto.
   - rewrite decl_macs_app, map_app, in_app_iff. tauto.
   - tauto.
@@ -369,7 +420,7 @@ Qed.
 Lemma declared_dom_in prev n :
   In n (declared KindD prev) <-> exists x, In x (map fst (decl_doms prev)) /\ (n = x \/ n = star x).
 Proof.
-  cbn [declared]. rewrite in_flat_map. split.
+  cbn [declared]. unfold dom_names. rewrite in_flat_map. split.
   - intros [[x l] [H1 H2]]. cbn in H2. exists x. split; [apply (in_map fst) in H1; exact H1|]. intuition.
   - intros [x [H1 H2]]. apply in_map_iff in H1. destruct H1 as [[x0 l] [E H1]]. cbn in E. subst x0.
     exists (x, l). split; [exact H1|]. cbn. intuition.
